@@ -72,7 +72,7 @@ func driveMP(p *Plan, shard int, w *Writer, t *codec.Table) {
 				continue
 			}
 			pd := fam[pi].D
-			text := t.Text(pd)
+			text := t.Spell(pd, false) // the patch document in one of its spellings
 			w.Sess[shard]++
 			w.Emit(shard, Rec{"sess": id, "op": "MpBegin", "p": pd, "raw": text})
 			var d jd.Diff
